@@ -460,6 +460,10 @@ class _Run:
             # data[k]: safe when k was obtained by iterating the same dict (KEY) or under a membership fact
             if not (k.kind == "I" and k.hk):
                 self.hz(node, {"KeyError"}, f"`{short(node, 60)}`: key not known to be present")
+                # the datum may be a dict *subclass*: an unguarded lookup calls its __missing__
+                # (defaultdict inserts the key: the caller's input is modified) - no handler helps
+                self.hz(node, {"__missing__"}, f"`{short(node, 60)}`: lookup of a possibly absent key in the input mapping without a membership test; "
+                        f"a dict subclass defining __missing__ (defaultdict, Counter) fabricates - and inserts - a value instead of raising KeyError")
         if base.types & {"list", "str"} and not (base.types & {"dict"}):
             ok = False
             # index variable of an enumerate() over a trusted sequence of the same length
